@@ -15,8 +15,8 @@ Transcribes, from `mindsdb_sql/planner/plan_join.py` (pinned tree):
 * the final `QueryStep`.
 
 Core Lean only.  Not modelled: LIMIT/ORDER pushdown (`check_use_limit`, C08), time-series models,
-the inner plan of sub-select operands (assumed to be ONE fetch step) and of nested selects in WHERE
-(assumed to be ONE step each), integration routing (C10).
+the inner plans of sub-select operands and of nested selects in WHERE (opaque: only their number of steps,
+`Operand.inner` / `sel n`, enters the model), integration routing (C10).
 -/
 namespace MindsVerif.ModelJoin
 
@@ -24,7 +24,8 @@ namespace MindsVerif.ModelJoin
 (keeps the type a plain inductive, so theorems are by ordinary structural induction).
 `col q n` = `Identifier(parts = q ++ [n])`; `const v` = `Constant`, `param v` = `Parameter`
 (values are opaque canonical strings); `opq` = any node kind the walker does not descend into;
-`sel` = a nested `Select` inside WHERE (planned first and replaced by a `Parameter`). -/
+`sel n` = a nested `Select` inside WHERE (planned first — its own plan has `n` steps — and replaced by a
+`Parameter` with the result of its last step). -/
 inductive E where
   | col (q : List String) (n : String)
   | const (v : String)
@@ -36,7 +37,7 @@ inductive E where
   | anil
   | acons (h t : E)
   | opq (tag : String)
-  | sel
+  | sel (n : Nat)
 deriving DecidableEq, Repr, Inhabited
 
 inductive Kind where
@@ -51,6 +52,7 @@ structure Operand where
   jtype : String                 -- join type of the Join whose RIGHT operand this is ("" for the first)
   on : Option E                  -- that Join's condition
   target : Option String         -- models: `to_predict` (first element), as in the catalog
+  inner : Nat := 1               -- sub-select operands: number of steps of the sub-select's own plan
 deriving Repr, Inhabited
 
 /-- ASCII lower-casing (Python's `str.lower` on ASCII text), written so that `decide` can evaluate it -/
@@ -324,7 +326,18 @@ def colName : E → String
 
 /-! ## steps -/
 
-abbrev Ref := String
+/-- reference to a step result: a top-level plan step, or the `k`-th sub-step of the MapReduceStep at `p` -/
+inductive Ref where
+  | top (n : Nat)
+  | sub (p k : Nat)
+  | bad
+deriving DecidableEq, Repr, Inhabited
+
+/-- `step_num` as Python prints it -/
+def Ref.show : Ref → String
+  | .top n => toString n
+  | .sub p k => s!"{p}_{k}"
+  | .bad => "?"
 
 inductive Step where
   | nested (k : Nat)                                   -- plan of the k-th nested select of WHERE
@@ -349,9 +362,8 @@ deriving Repr, Inhabited
 def addToPart (st : St) (p : Nat) (s : Step) : St × Ref :=
   match st.steps.getD p default with
   | .mr v sz subs =>
-    let r := s!"{p}_{subs.length}"
-    ({ st with steps := st.steps.set p (.mr v sz (subs ++ [s])) }, r)
-  | _ => (st, "?")
+    ({ st with steps := st.steps.set p (.mr v sz (subs ++ [s])) }, .sub p subs.length)
+  | _ => (st, .bad)
 
 def isJoinOrApply : Step → Bool
   | .join .. => true
@@ -360,14 +372,14 @@ def isJoinOrApply : Step → Bool
 
 def stepInput : Step → Ref
   | .apply _ i _ _ _ => i
-  | _ => "?"
+  | _ => .bad
 
 /-- `close_partition` -/
 def closePartition (st : St) : St :=
   match st.part with
   | some p =>
     match st.stack with
-    | _ :: rest => { st with stack := toString p :: rest, part := none }
+    | _ :: rest => { st with stack := .top p :: rest, part := none }
     | [] => { st with part := none }
   | none => st
 
@@ -378,18 +390,18 @@ def addPlanStep (st : St) (s : Step) (psize : Option String := none) : St × Ref
     if isJoinOrApply s then addToPart st p s
     else
       let st := closePartition st
-      ({ st with steps := st.steps ++ [s] }, toString st.steps.length)
+      ({ st with steps := st.steps ++ [s] }, .top st.steps.length)
   | none =>
     match psize with
     | some sz =>
       let p := st.steps.length
       let st1 := { st with steps := st.steps ++ [.mr (stepInput s) sz []], part := some p }
       addToPart st1 p s
-    | none => ({ st with steps := st.steps ++ [s] }, toString st.steps.length)
+    | none => ({ st with steps := st.steps ++ [s] }, .top st.steps.length)
 
 /-- `planner.plan.add_step` (bypasses the partition logic) -/
 def addStep (st : St) (s : Step) : St × Ref :=
-  ({ st with steps := st.steps ++ [s] }, toString st.steps.length)
+  ({ st with steps := st.steps ++ [s] }, .top st.steps.length)
 
 def lookupRef (l : List (Nat × Ref)) (i : Nat) : Option Ref := (l.find? (·.1 = i)).map (·.2)
 
@@ -402,7 +414,7 @@ def dataFilters (ops : List Operand) : List (E × E) → St → St × List E
     | some fr =>
       let (st1, r) := addPlanStep st (.distinct fr (colName a2))
       let (st2, fs) := dataFilters ops rest st1
-      (st2, .bin "in" (.col [] (colName a1)) (.param ("r:" ++ r)) :: fs)
+      (st2, .bin "in" (.col [] (colName a1)) (.param ("r:" ++ r.show)) :: fs)
 
 /-- first whitespace-separated word -/
 def firstWord (s : String) : String :=
@@ -445,13 +457,19 @@ inductive Err where
   | planning | notImplemented
 deriving DecidableEq, Repr
 
+/-- `planner.plan_select(item.sub_select)`: the sub-select's own plan, `n` opaque steps added with
+`plan.add_step` (not through the partition logic) -/
+def addInner (st : St) (j : Nat) : Nat → St
+  | 0 => st
+  | n + 1 => addInner { st with steps := st.steps ++ [.inner j] } j n
+
 def processSubselect (ops : List Operand) (j : Nat) (w : Option E) (st : St) : Except Err St :=
   let o := ops.getD j default
-  let (st1, r1) := addStep st (.inner j)
+  let st1 := addInner st j o.inner
   match o.alias with
   | none => .error .planning
   | some _ =>
-    let (st2, r) := addPlanStep st1 (.subsel j r1 (andAll (whereFilters ops j w)))
+    let (st2, r) := addPlanStep st1 (.subsel j (.top (st1.steps.length - 1)) (andAll (whereFilters ops j w)))
     .ok { st2 with stack := r :: st2.stack }
 
 /-- what `process_predictor` computes for model `i`: (row_dict, params, partition_size, columns_map) -/
@@ -517,7 +535,7 @@ def runItems (ops : List Operand) (w : Option E) (using? : Option (List (String 
 
 /-- nested selects of WHERE are planned first (walk order) and replaced by `Parameter(Result(k))` -/
 def numberSelects : E → Nat → E × Nat
-  | .sel, k => (.param s!"r:{k}", k + 1)
+  | .sel n, k => (.param s!"r:{k + n - 1}", k + n)
   | .bin op l r, k =>
     let (l', k1) := numberSelects l k
     let (r', k2) := numberSelects r k1
@@ -552,35 +570,42 @@ deriving Repr, Inhabited
 
 def rewriteOn (ops : List Operand) : List Operand → Option (List Operand)
   | [] => some []
-  | o :: rest => do
-    let on' ← match o.on with
-      | none => some none
-      | some e => (rewrite ops e).map some
-    let rest' ← rewriteOn ops rest
-    pure ({ o with on := on' } :: rest')
+  | o :: rest =>
+    match (match o.on with | none => some none | some e => (rewrite ops e).map some), rewriteOn ops rest with
+    | some on', some rest' => some ({ o with on := on' } :: rest')
+    | _, _ => none
+
+/-- `check_query_conditions` raises (a top-level conjunct names an unknown table) -/
+def whereFails (ops : List Operand) : Option E → Bool
+  | none => false
+  | some w => (topConjuncts w).any (attribFails ops)
+
+/-- the planning proper, after `_check_identifiers`: `k` nested selects of WHERE were planned first -/
+def planWith (ops : List Operand) (w : Option E) (using? : Option (List (String × String))) (k : Nat) :
+    Except Err (List Step) :=
+  -- check_query_conditions
+  if whereFails ops w then .error .planning else
+  match runItems ops w using? (joinSeq ops) { steps := (List.range k).map .nested } with
+  | .error e => .error e
+  | .ok st =>
+    match (closePartition st).stack with
+    | [] => .error .planning
+    | top :: _ =>
+      match w with
+      | some w => .ok ((closePartition st).steps ++ [.query top (outerWhere ops w)])
+      | none => .ok (closePartition st).steps
+
+/-- nested selects in WHERE first -/
+def numberWhere : Option E → Option E × Nat
+  | none => (none, 0)
+  | some w => ((numberSelects w 0).1, (numberSelects w 0).2) |> fun p => (some p.1, p.2)
 
 /-- `PlanJoinTablesQuery.plan` -/
 def plan (q : Query) : Except Err (List Step) :=
-  -- nested selects in WHERE first
-  let (w0, k) := match q.wh with
-    | none => (none, 0)
-    | some w => let (w', k) := numberSelects w 0; (some w', k)
-  let st0 : St := { steps := (List.range k).map .nested }
   -- _check_identifiers
-  match rewriteOn q.ops q.ops, (match w0 with | none => some none | some w => (rewrite q.ops w).map some) with
-  | some ops, some w =>
-    -- check_query_conditions
-    if (match w with | none => false | some w => (topConjuncts w).any (attribFails ops)) then .error .planning else
-    match runItems ops w q.using? (joinSeq ops) st0 with
-    | .error e => .error e
-    | .ok st =>
-      let st := closePartition st
-      match st.stack with
-      | [] => .error .planning
-      | top :: _ =>
-        match w with
-        | some w => .ok (st.steps ++ [.query top (outerWhere ops w)])
-        | none => .ok st.steps
+  match rewriteOn q.ops q.ops,
+      (match (numberWhere q.wh).1 with | none => some none | some w => (rewrite q.ops w).map some) with
+  | some ops, some w => planWith ops w q.using? (numberWhere q.wh).2
   | _, _ => .error .planning
 
 /-! ## specification vocabulary (used by the theorems of `Props/C14.lean`) -/
@@ -647,5 +672,74 @@ def isLeaf : E → Bool
   | .const _ => true
   | .param _ => true
   | _ => false
+
+/-! ## dataflow vocabulary for T14.1 -/
+
+/-- the step a reference points to -/
+def stepAt (steps : List Step) : Ref → Option Step
+  | .top n => steps[n]?
+  | .sub p k => match steps[p]? with
+    | some (.mr _ _ subs) => subs[k]?
+    | _ => none
+  | .bad => none
+
+/-- `HoldsX steps x r S`: the result referenced by `r` is built (by fetch / sub-select / apply / join steps)
+from exactly the operands `S`, in join order.  A MapReduceStep denotes what its last sub-step denotes;
+`x` = index of a still OPEN MapReduceStep, whose own result may not be used yet. -/
+inductive HoldsX (steps : List Step) (x : Option Nat) : Ref → List Nat → Prop where
+  | fetch {r j w} : stepAt steps r = some (.fetch j w) → HoldsX steps x r [j]
+  | subsel {r j i w} : stepAt steps r = some (.subsel j i w) → HoldsX steps x r [j]
+  | apply {r j i a b c} : stepAt steps r = some (.apply j i a b c) → HoldsX steps x r [j]
+  | join {r l r' jt on A B} : stepAt steps r = some (.join l r' jt on) →
+      HoldsX steps x l A → HoldsX steps x r' B → HoldsX steps x r (A ++ B)
+  | mr {p v sz subs S} : steps[p]? = some (.mr v sz subs) → some p ≠ x → subs ≠ [] →
+      HoldsX steps x (.sub p (subs.length - 1)) S → HoldsX steps x (.top p) S
+
+/-- `Holds steps r S` in a finished plan -/
+abbrev Holds (steps : List Step) (r : Ref) (S : List Nat) : Prop := HoldsX steps none r S
+
+def applyOf1 : Step → Option (Nat × Ref)
+  | .apply i inp _ _ _ => some (i, inp)
+  | _ => none
+
+def appliesOfStep : Step → List (Nat × Ref)
+  | .apply i inp _ _ _ => [(i, inp)]
+  | .mr _ _ subs => subs.filterMap applyOf1
+  | _ => []
+
+/-- all apply steps of a plan (also those inside MapReduceSteps): (model operand, input reference) -/
+def appliesOf (steps : List Step) : List (Nat × Ref) := steps.flatMap appliesOfStep
+
+/-- abstract run: what every stack entry denotes, and which model was applied to what -/
+structure Abs where
+  stk : List (List Nat) := []
+  log : List (Nat × List Nat) := []
+deriving Repr
+
+def absItem (ops : List Operand) (a : Abs) : Item → Option Abs
+  | .operand i =>
+    match (ops.getD i default).kind with
+    | .mod =>
+      match a.stk with
+      | [] => none
+      | T :: rest => some { stk := [i] :: T :: rest, log := a.log ++ [(i, T)] }
+    | _ => some { a with stk := [i] :: a.stk }
+  | .join _ =>
+    match a.stk with
+    | r :: l :: rest => some { a with stk := (l ++ r) :: rest }
+    | _ => none
+
+def absRun (ops : List Operand) : List Item → Abs → Option Abs
+  | [], a => some a
+  | it :: rest, a => (absItem ops a it).bind (absRun ops rest)
+
+def isModAt (ops : List Operand) (i : Nat) : Bool := (ops.getD i default).kind = .mod
+
+/-- indices of the model operands -/
+def modelIdx (ops : List Operand) : List Nat := (List.range' 0 ops.length).filter (isModAt ops)
+
+/-- the operands a model operand is joined to: everything to its left (the other operand for `model JOIN table`) -/
+def leftOf (ops : List Operand) (i : Nat) : List Nat :=
+  if ops.length = 2 ∧ i = 0 then [1] else List.range i
 
 end MindsVerif.ModelJoin
